@@ -2,11 +2,11 @@
 
 1. TLC explores the design spec AdbRecover (locks only inside with-blocks, connect closes the transport and clears
    the store first, close clears the store; any transport call may fail, up to two faults): LocksFreeWhenIdle,
-   CleanSession, Recoverable; its two sanity mutations (no release on exception, no clearing on connect) must
-   violate them.
+   CleanSession, Recoverable, SessionParams; its three sanity mutations (no release on exception, no clearing on
+   connect, session parameters kept until close) must violate them.
 2. code->spec, exhaustive fault enumeration: a scenario covering connect / shell / stat / list / pull / push is
    run fault-free to number its transport calls; for every call index k and every fault kind (timeout exception,
-   connection reset, end-of-stream) the fault is injected at k, then close(), connect() to a healthy device and
+   connection reset, end-of-stream, broken pipe on writes, plain OSError, the USB transport's errors; async: cancellation) the fault is injected at k, then close(), connect() to a healthy device and
    the whole scenario again; thorough: pairs of faults (the second one during recovery).  Each run is one trace
    judged by TraceRecover (NeverWrong, LocksFreeWhenIdle, CloseCompletes, ReconnectWorks, CleanSession, NoHang).
 """
@@ -83,7 +83,7 @@ def one_run(mode, seed, faults, wcap_seed=None):
     return spec, dev, sess, rr, args, tr, outs, fault, ncalls
 
 
-def fault_trace(mode, seed, faults, baseline, skip_close=False, wcap_seed=None, want_events=False):
+def fault_trace(mode, seed, faults, baseline, skip_close=False, wcap_seed=None, want_events=False, recovery_maxdata=None):
     spec, dev, sess, rr, args, tr, outs, fault, ncalls = one_run(mode, seed, faults, wcap_seed)
     for i, (key, lf, o) in enumerate(outs):
         if o.kind == 'exc':
@@ -101,6 +101,8 @@ def fault_trace(mode, seed, faults, baseline, skip_close=False, wcap_seed=None, 
             ok = False
         tr.append(dict(ev='close', ok=bool(ok), locksFree=locks_free(sess), avail=bool(sess.device.available)))
     nf0 = len(fault.fired)
+    if recovery_maxdata:
+        dev.auth.maxdata = dev.auth.final_maxdata = recovery_maxdata     # what answers the reconnect announces another maxdata (e.g. a recovery-mode adbd)
     o = sess.call('connect', read_timeout_s=2.0, transport_timeout_s=1.0)
     if o.kind == 'exc' and o.exc_name in ('Watchdog', 'LockLeak'):
         tr.append(dict(ev='op', api='connect', outcome='hang', locksFree=locks_free(sess), faulted=True))
@@ -138,17 +140,17 @@ def baseline_for(mode, seed):
 def body(ctx):
     rng = random.Random(ctx.seed)
     # 1. design
-    for nf, nc, expect in ((False, False, None), (True, False, 'LocksFreeWhenIdle'), (False, True, 'CleanSession')):
-        cfg = tlc.cfg_text(constants={'MaxFaults': '2', 'MaxEpoch': '3', 'NoFinally': 'TRUE' if nf else 'FALSE', 'NoClear': 'TRUE' if nc else 'FALSE'},
-                           invariants=['LocksFreeWhenIdle', 'CleanSession', 'Recoverable'], constraints=['Bound'])
+    for nf, nc, sp, expect in ((False, False, False, None), (True, False, False, 'LocksFreeWhenIdle'), (False, True, False, 'CleanSession'), (False, False, True, 'SessionParams')):
+        cfg = tlc.cfg_text(constants={'MaxFaults': '2', 'MaxEpoch': '3', 'NoFinally': 'TRUE' if nf else 'FALSE', 'NoClear': 'TRUE' if nc else 'FALSE', 'StaleParams': 'TRUE' if sp else 'FALSE'},
+                           invariants=['LocksFreeWhenIdle', 'CleanSession', 'Recoverable', 'SessionParams'], constraints=['Bound'])
         r = tlc.run('AdbRecover', cfg)
-        ctx.add_tlc(r, 'AdbRecover NoFinally=%s NoClear=%s' % (nf, nc))
+        ctx.add_tlc(r, 'AdbRecover NoFinally=%s NoClear=%s StaleParams=%s' % (nf, nc, sp))
         names = [v['name'] for v in r.violations]
         if expect is None and names:
             ctx.violation('C12.' + names[0] + '(design)', dict(kind='design-counterexample', state=r.violations[0]['trace'][-1][:600]))
             return
         if expect is not None and expect not in names:
-            raise tlc.TlcError('vacuity: sanity mutation %s/%s does not violate %s' % (nf, nc, expect))
+            raise tlc.TlcError('vacuity: sanity mutation %s/%s/%s does not violate %s' % (nf, nc, sp, expect))
     # 2. fault enumeration
     traces, meta, env_traces = [], [], []
     for mode in ('sync', 'async'):
@@ -156,13 +158,18 @@ def body(ctx):
         ctx.extra.setdefault('transport_calls_in_scenario', {})[mode] = ncalls
         ks = list(range(ncalls))
         for k in ks:
-            for kind in ('timeout', 'reset', 'eof') + (('cancel',) if mode == 'async' else ()):
-                # recovery with and without close(); with and without short writes before the fault
+            # other exception classes a transport can raise: a broken pipe on writes, a plain OSError, the USB transport's own errors
+            others = (('epipe',) if calls[k][0] == 'bulk_write' else ()) + (('oserr', 'usb')[k % 2],)
+            for kind in ('timeout', 'reset', 'eof') + (('cancel',) if mode == 'async' else ()) + others:
+                # recovery with and without close(); with and without short writes before the fault; to a peer with the same or a smaller maxdata
                 variant = (k + len(kind)) % 4
-                tr, fault, evs = fault_trace(mode, ctx.seed, {k: kind}, base, skip_close=bool(variant & 1), wcap_seed=(ctx.seed + k) if variant & 2 else None, want_events=True)
+                rmax = 1500 if (k // 4 + len(kind)) % 3 == 0 else None
+                tr, fault, evs = fault_trace(mode, ctx.seed, {k: kind}, base, skip_close=bool(variant & 1), wcap_seed=(ctx.seed + k) if variant & 2 else None, want_events=True,
+                                             recovery_maxdata=rmax)
                 traces.append(tr)
                 env_traces.append(evs)
-                meta.append(dict(kind='fault', mode=mode, at={str(k): kind}, call=calls[k][0] if k < len(calls) else '?', recovery_without_close=bool(variant & 1), short_writes=bool(variant & 2)))
+                meta.append(dict(kind='fault', mode=mode, at={str(k): kind}, call=calls[k][0] if k < len(calls) else '?', recovery_without_close=bool(variant & 1), short_writes=bool(variant & 2),
+                                 recovery_maxdata=rmax))
         # a fault exactly at the close() that follows the healthy scenario, and at the connect() after it
         for extra in (0, 1, 2, 3, 4, 5):
             for kind in ('timeout', 'reset') + (('cancel',) if mode == 'async' else ()):
@@ -192,7 +199,7 @@ def body(ctx):
     ver2, r3 = tlc.validate_traces('TraceEnv', env_traces)
     ctx.add_tlc(r3, 'TraceEnv over the wire traffic of %d faulted runs' % len(env_traces))
     for (i, l, v) in ver2:
-        if v.startswith('C02.') or v in ('C04.AfterClose', 'C04.DoubleClose'):
+        if v.startswith('C02.') or v in ('C04.AfterClose', 'C04.DoubleClose', 'C04.Maxdata'):
             e_ = env_traces[i][l - 2]
             ctx.violation('C12.CleanSession(' + v + ')', dict(meta[i], failing_event=l - 1, event={kk: e_.get(kk) for kk in ('ev', 'cmd', 'a0', 'a1', 'reason')}))
     ctx.cov['exhaustive'] = True
